@@ -4,6 +4,7 @@
   of field name.
 -/
 import Pyab.Generated.Config
+import Pyab.Properties.EvaluatorPremise
 import Pyab.Spec.Run
 import Pyab.Proofs.RunGenerated
 import Pyab.Properties.C09
